@@ -476,10 +476,19 @@ pub fn run_case(p: &Program, cfg: &Config, opts: &CaseOpts, rng: &mut Rng) -> Ca
                     }
                 }
             } else if opts.internal_is_violation {
+                // K7: all modeled threads share one OS thread, hence one `std::thread::panicking()`
+                // flag; while a thread that is unwinding a caught panic is switched out, the lock
+                // releases of the other threads poison loom's inner std mutexes
+                let has_unwind = p.threads.iter().flatten().any(|o| matches!(o, Op::UnwindLock { .. }));
+                let known = if opts.attribute && has_unwind && msg.contains("PoisonError") {
+                    Some("K7-panicking-flag-shared-by-modeled-threads".to_string())
+                } else {
+                    None
+                };
                 rep.violations.push(Violation {
                     kind: "internal".into(),
                     detail: format!("loom panicked in iteration {} with an unexpected {:?}: {}", run.iterations + 1, class, first_line(msg)),
-                    known: None,
+                    known,
                     evidence: json!({"iteration": run.iterations + 1, "history": history_text(&h), "history_events": h, "message": first_line(msg)}),
                 });
             }
